@@ -36,8 +36,16 @@ def exec_route(spec, env):
             o = rt.run_route(r, tgt, spec.get("var"), pt)
         outs.append(o)
     p = rt.make_point(coords(supplied, env))
+    reuse = spec.get("reuse_seq")
     for r in spec["routes"]:
-        outs.append(rt.run_route(r, e, spec.get("var"), p))
+        if reuse:
+            # one long-lived object queried repeatedly, with the expression used through other entry points in between
+            def pt(pn):
+                return p if pn == "" else rt.make_point(coords(spec.get("pre_supplied", vs), env, pn + "_"))
+            steps = [("obj", pt(st[1])) if st[0] == "obj" else ("expr", st[1], pt(st[2])) for st in reuse]
+            outs.append(rt.run_route_reusing(r, e, spec.get("var"), steps, p))
+        else:
+            outs.append(rt.run_route(r, e, spec["vars"] if r.endswith("_all") else spec.get("var"), p))
     return outs
 
 
@@ -62,7 +70,7 @@ def input_names(spec):
     for n in spec.get("extra_inputs", []):
         if n not in names:
             names.append(n)
-    pre_points = sorted({p for (_, _, p) in spec.get("pre", []) if p})
+    pre_points = sorted({p for (_, _, p) in spec.get("pre", []) if p} | {st[-1] for st in spec.get("reuse_seq", []) if st[-1]})
     for pn in pre_points:
         for v in spec.get("pre_supplied", vs):
             names.append(pn + "_" + v)
